@@ -37,6 +37,8 @@ def build(facts):
     c18 = C18.build(facts)
     E, U, PV, S = c18["E"], c18["U"], c18["PV"], c18["S"]
     c = dict(c18)
+    from vc import stdmodels
+    stdmodels.install_regex(E)
     c["facts"] = facts
     c["visit_uf"] = {}
     _CTX["c"] = c
@@ -156,6 +158,12 @@ def classify_atom(c, atom, alias_term):
         elif oo and oo[0] in ("upper", "lower"):
             transforms.append((oo[0],))
             inner = oo[1]
+        elif oo and oo[0] == "resub":
+            transforms.append(("resub", oo[2], oo[3]))
+            inner = oo[1]
+        elif oo and oo[0] == "slice" and oo[2] is None and oo[3] == -1:
+            transforms.append(("droplast",))
+            inner = oo[1]
         elif oo and oo[0] in ("term", "slice", "py_str", "py_str_obj", "py_repr", "join_seq", "cls_name") or not oo:
             break
         else:
@@ -180,6 +188,13 @@ def classify_atom(c, atom, alias_term):
             nm = inner.decl().name()
             if "_" in nm:
                 kind, field = nm.split("_", 1)
+        elif inner.get_id() in c.get("field_consts", {}):
+            kind, field = c["field_consts"][inner.get_id()]
+    rg = None
+    if z3.is_app(bs):
+        rg = c.get("regroups", {}).get(bs.get_id())
+    if rg is not None:
+        kind, field = "regroup", rg
     if cur.origin and cur.origin[0] == "py_str":
         transforms.insert(0, ("py_str", cur.origin[2] if len(cur.origin) > 2 else "?"))
     return R.Hole("data", DataInfo(base, transforms, kind, field, raw_atom=atom))
@@ -247,10 +262,11 @@ def data_condition(c, hole, context, dialect):
             return True, "table alias inside a quoted identifier (alias_ok: no double quote)"
         return False, f"table alias in {context} position"
     tr = list(info.transforms)
+    c["regroups"] = c.get("regroups", {})
     if any(t[0] in ("opaque", "py_str") for t in tr):
         return False, f"data passes through an unmodelled transformation {tr}"
-    lang = field_language(c, info.kind, info.field) if info.kind else None
-    any_string = lang is None
+    lang = field_language(c, info.kind, info.field) if info.kind and info.kind != "regroup" else None
+    any_string = lang is None and info.kind != "regroup" and not (tr and tr[-1][0] == "resub")
 
     def chars_image_ok(allowed_char, replaced_ok):
         """per-character homomorphism lemma: every character's image lies in the allowed block language"""
@@ -332,6 +348,17 @@ def _mapped(P, c, info, tr):
             elif t[0] == "lower":
                 ch = ch.lower()
         return ch
+    if info.kind == "regroup":
+        return _group_language(P, info.field, tr)
+    if tr and tr[-1][0] == "resub":
+        # re.sub(<negated class>, repl, text): every character outside the class is replaced, so the result is a
+        # string over (class | repl)
+        pat, repl = tr[-1][1], tr[-1][2]
+        import re as _re
+        m = _re.fullmatch(r"\[\^(.+)\]", pat)
+        if not m:
+            raise A.RegexUnsupported("re.sub with a pattern that is not a negated class")
+        return A.Rep(A.Alt([P.parse("[" + m.group(1) + "]", 0), A.lit(repl)]), 0, None)
     charmap = cm if tr else None
     pats = {r["name"]: r["pattern"] for r in lx["rules"]}
     if key in LITERAL_RULE:
@@ -342,6 +369,40 @@ def _mapped(P, c, info, tr):
         env = facts.module_env("odata_query.ast").get("DURATION_PATTERN")
         return P.parse(env["pattern"], env["flags"] & ~re.U, charmap=charmap)
     raise A.RegexUnsupported(f"no language for {key}")
+
+
+def _group_language(P, rg, tr):
+    """language of capturing group `idx` of `pattern` (optionally without its last, literal character)"""
+    pattern, flags, idx = rg
+    import re as _re
+    tree = A.sre_parse.parse(pattern, flags & ~_re.U)
+    found = []
+
+    def walk(items):
+        for op, av in items:
+            if op == A.sre_c.SUBPATTERN:
+                group, _, _, sub = av
+                if group == idx:
+                    found.append(sub)
+                walk(sub)
+            elif op in (A.sre_c.MAX_REPEAT, A.sre_c.MIN_REPEAT):
+                walk(av[2])
+            elif op == A.sre_c.BRANCH:
+                for alt in av[1]:
+                    walk(alt)
+    walk(tree)
+    if not found:
+        raise A.RegexUnsupported(f"group {idx} not found")
+    sub = list(found[0])
+    for t in tr:
+        if t[0] == "droplast":
+            if not sub or sub[-1][0] != A.sre_c.LITERAL:
+                raise A.RegexUnsupported("group does not end with a literal character")
+            sub = sub[:-1]
+        else:
+            raise A.RegexUnsupported(f"transformation {t[0]} on a regex group")
+    ic = bool(flags & _re.I)
+    return P._seq(sub, ic, None)
 
 
 # ------------------------------------------------------------------------------------------
@@ -360,6 +421,8 @@ def reader_obligations(c, dkey, path, node, value, alias_term, spec_tree=None, p
     U = c["U"]
     _, dialect = VISITORS[dkey]
     out = []
+    if isinstance(value, Sym) and path.entails(U.is_tag("StrV", value.term)):
+        value = c["E"].from_pv(U.strv(c["PV"].s(value.term)))
     if not isinstance(value, (str, SStr)):
         out.append(("post.wf", z3.BoolVal(False), {"problem": f"handler returned {type(value).__name__}, not text: {value!r}"[:200]}))
         return out
